@@ -46,6 +46,17 @@ def dedup_case(arg):
     enc = r.random() < 0.8
     conc = r.choice([1, 2, 3, 4, 6, 8])
     chunking = r.choice([(8, 32), (16, 64), (5, 12), (13, 50), (32, 128)])
+    # command options that must not influence what is stored: bandwidth limit and connection count vary from one command to the next,
+    # on data larger than any read-ahead / transfer block derived from them (limiter sleeps are skipped: only their effect on the data path matters)
+    vary = r.random() < 0.5
+    big = r.choice([0, 5_000, 20_000, 70_000]) if vary else 0
+    if big:
+        chunking = r.choice([(32, 128), (64, 256), (100, 1000)])
+    LIMITS = [None, 1, 700, 3_000, 4_096, 5_000, 9_000, 20_000, 10 ** 6, 10 ** 9]
+    if vary:
+        import time
+        time.sleep = lambda s: None
+    res['options'] = []
     with R.Scratch(f'c07d_{idx}') as sc:
         w = World(sc, enc=enc, chunking=chunking, concurrent=conc, async_backend=r.random() < 0.4,
                   cipher=r.choice([None, {'name': 'chacha20_poly1305'}]) if enc else None)
@@ -58,12 +69,17 @@ def dedup_case(arg):
               'rep': b3 * r.choice([2, 4, 6]), 'zero': bytes(r.choice([0, mx, 5 * mx])), 'dir/x': b2}
         for k in r.sample(sorted(fs), r.choice([0, 1, 2])):
             del fs[k]
+        if big:
+            fs['big'] = r.randbytes(big + r.randrange(3))
         others = {}
 
         def step(ui, fileset, label, expect_nothing):
             before = w.abstract_store(others)
             pay0 = w.backend.upload_payloads
-            snap = w.snapshot(ui, fileset)
+            lim = r.choice(LIMITS) if vary else None
+            cc = r.choice([1, 2, 3, 4, 6, 8]) if vary else conc
+            res['options'].append((label, lim, cc))
+            snap = w.snapshot(ui, fileset, repo=w.repo(ui, concurrent=cc), rate_limit=lim)
             after = w.abstract_store(others)
             puts = [t for t in snap['trace'] if t[0] == 'put' and t[1].startswith('data/')]
             st = {'label': label, 'user': w.model_user(ui), 'kind': w.users[ui].kind, 'op': snap['op'], 'before': before, 'after': after,
@@ -73,7 +89,7 @@ def dedup_case(arg):
             fam = w.users[ui].fam
             if expect_nothing and (puts or st['payload_bytes']):
                 res['violations'].append(('dedup:repeat-snapshot-uploaded-chunks',
-                                          f'{label}: snapshot of unchanged data by {w.users[ui].kind} user at concurrency {conc} issued {len(puts)} chunk uploads ({st["payload_bytes"]} payload bytes)', {}))
+                                          f'{label}: snapshot of unchanged data by {w.users[ui].kind} user at concurrency {cc}, rate limit {lim} (earlier commands: {res["options"][:-1]}) issued {len(puts)} chunk uploads ({st["payload_bytes"]} payload bytes)', {}))
             present_before = {tuple(e[0][1:]) for e in before if e[0][0] == 'chunk'}
             again = [x for x in st['uploaded'] if tuple(x[1:]) in present_before]
             if again:
@@ -106,7 +122,7 @@ def dedup_case(arg):
             fs2['pre'] = fs2['pre'] + b'tail'
         step(r.choice(order), fs2, 'modified', False)
         step(r.choice(order), fs2, 'modified-repeat', True)
-        res['summary'] = {'enc': enc, 'concurrent': conc, 'chunking': list(chunking), 'files': sorted(fs), 'steps': [(s['label'], s['kind'], s['chunk_puts'], s['distinct'], s['stream']) for s in res['steps']]}
+        res['summary'] = {'options': res['options'] if vary else None, 'big': big, 'enc': enc, 'concurrent': conc, 'chunking': list(chunking), 'files': sorted(fs), 'steps': [(s['label'], s['kind'], s['chunk_puts'], s['distinct'], s['stream']) for s in res['steps']]}
         res['dup_in_stream'] = any(s['distinct'] < s['stream'] for s in res['steps'])
     return res
 
@@ -137,7 +153,7 @@ def run(out, drv, info):
     n_hist, n_ops = (120, 12) if quick else (1000, 30)
     out.rule = ('history cases as in C02 (own seed label), non-trivial = some snapshot whose data repeats a block inside itself or shares ≥ 1 chunk with data its family already '
                 'stores; de-duplication cases = file set with identical files / shared prefix / shared suffix at a shifted offset / block repeated inside a file / zero runs, '
-                '(min,max) from 5 settings, concurrency 1–8, first snapshot, repeats by owner / clone / shared-key user, independent-key user, modified data; '
+                '(min,max) from 5 settings (+3 with a 5–70 kB file), concurrency 1–8, in half of the cases bandwidth limit (none, 1 B/s … 1 GB/s) and connection count re-drawn for every command, first snapshot, repeats by owner / clone / shared-key user, independent-key user, modified data; '
                 'non-trivial = the chunk stream of some step contains a repeated chunk; distinct = hash of the case summary; '
                 'racy-upload cases = 2–4 overlapping real snapshot coroutines (pools of 1–5 workers, gated backend calls released observations-first / randomly / one command first, '
                 'data with zero runs, repeated blocks and blocks shared between the commands, 0–2 snapshots stored before), non-trivial = ≥ 1 chunk location was uploaded more than once')
@@ -153,6 +169,11 @@ def run(out, drv, info):
         out.case(res['summary'], res['dup_in_stream'])
         out.count('dedup-case')
         out.count('dedup:conc=%d' % res['summary']['concurrent'])
+        out.count('dedup:options-vary-between-commands' if res['summary']['options'] else 'dedup:same-options-every-command')
+        if res['summary']['big']:
+            out.count('dedup:file-of-%d-bytes' % res['summary']['big'])
+        for _, lim, _cc in res['summary']['options'] or []:
+            out.count('dedup:rate-limit:' + ('none' if lim is None else '<4096' if lim < 4096 else '<10^5' if lim < 10 ** 5 else '≥10^6'))
         for st in res['steps']:
             out.count('dedup-step:' + st['label'] + ':' + st['kind'])
         for sig, what, rp in res['violations']:
